@@ -17,6 +17,76 @@ func init() {
 	vrt.Register("h_damage.ReadOverwritten", ReadOverwritten)
 	vrt.Register("h_damage.ReadTruncated", ReadTruncated)
 	vrt.Register("h_damage.DirOverwritten", DirOverwritten)
+	vrt.Register("h_damage.DirTruncated", DirTruncated)
+}
+
+// DirTruncated: one segment's log file cut short at a symbolic length (index
+// files intact); no call returns a wrong message and no call panics.
+func DirTruncated() {
+	ls := kit.Layouts(vrt.Bound("segs", 2), vrt.Bound("recs", 2))
+	counts := ls[vrt.Choose("layout", len(ls))]
+	l := kit.Gen(kit.Shape{Counts: counts, Profile: 0}, true, true)
+	l.MonotoneTimes()
+	si := vrt.Choose("dseg", vrt.Bound("segs", 2))
+	vrt.Assume(si < len(l.Segs) && len(l.Segs[si].Recs) > 0)
+	l.Build("d")
+	s := &l.Segs[si]
+	total := len(s.LogBytes())
+	L := vrt.IntRange("L", 8, total-1)
+	vrt.Truncate(vrt.SegName(l.Dir, s.Base, ".log"), L)
+	pos := 8
+	var ends []int
+	for _, r := range s.Recs {
+		pos += kit.RecordSize(false, len(r.Key), len(r.Val))
+		ends = append(ends, pos)
+	}
+	lg, err := klevdb.Open(l.Dir, l.Options())
+	if err != nil {
+		vrt.Reach("open-fails")
+		return
+	}
+	live := l.Live()
+	cut := func(off int64) bool {
+		c := false
+		for k, r := range s.Recs {
+			c = vrt.Or(c, vrt.And(r.Off == off, ends[k] > L))
+		}
+		return c
+	}
+	for _, r := range live {
+		m, err := lg.Get(r.Off)
+		vrt.Assert(vrt.Implies(cut(r.Off), err != nil), "Get of a record that was cut off fails")
+		if err == nil {
+			vrt.Assert(kit.Same(m, r), "Get never returns a message that differs from the published one")
+		}
+	}
+	qs := []int64{klevdb.OffsetOldest}
+	for _, r := range live {
+		qs = append(qs, r.Off)
+	}
+	for _, q := range qs {
+		_, msgs, err := lg.Consume(q, 2)
+		if err == nil {
+			i0 := kit.LowerBound(live, q)
+			for j, m := range msgs {
+				vrt.Assert(i0+j < len(live) && kit.Same(m, live[i0+j]), "Consume never returns a message that differs from the published one")
+			}
+		}
+	}
+	for _, r := range live {
+		m, err := lg.GetByKey(r.Key)
+		if err == nil {
+			i := kit.LowerBound(live, m.Offset)
+			vrt.Assert(i < len(live) && kit.Same(m, live[i]), "GetByKey never returns a message that differs from the published one")
+		}
+		tm, err := lg.GetByTime(time.UnixMicro(r.Us))
+		if err == nil {
+			i := kit.LowerBound(live, tm.Offset)
+			vrt.Assert(i < len(live) && kit.Same(tm, live[i]), "GetByTime never returns a message that differs from the published one")
+		}
+	}
+	vrt.Reach("dir-truncated")
+	lg.Close()
 }
 
 // fieldRange: byte range of field f of the V2 record starting at s
